@@ -1,6 +1,9 @@
 import Dashu.Proofs.Panic.Guards
 import Dashu.Proofs.Panic.GuardsMore
 import Dashu.Proofs.Panic.AllocGuards
+import Dashu.Proofs.Panic.GuardsMore3
+import Dashu.Proofs.Panic.NoPanic
+import Dashu.Proofs.Panic.Loops2
 import Dashu.Proofs.Panic.Farey
 import Dashu.Proofs.Panic.LnLoop
 import Dashu.Proofs.Panic.Utf8
@@ -288,6 +291,110 @@ example : guardMDiff 64 7 7 = .error .differentRings := by decide
 example : guardRequest 64 (shlRequest 64 1 (2 ^ 64 - 1)) = .error .allocTooMuch := by decide
 example : expApprox ((5 : Int) + 7) = .returns := by decide
 
+-- ---- round 3: the operations for which the documentation names NO panic (58 ops; the mirrored guard is `.ok ()`),
+--      and the last guards that are pure predicates of the inputs
+
+theorem parse_radix_never_panics (W : Nat) (s : List UInt8) (r : Int) (op : Op)
+    (hop : op ∈ [Op.uFromStrRadix, .iFromStrRadix, .uFromStrDefault, .iFromStrDefault]) :
+    documented W op [.str s, .dec r] = none := no_panic_parse_radix W s r op hop
+
+theorem parse_never_panics (W : Nat) (s : List UInt8) (op : Op)
+    (hop : op ∈ [Op.uFromStrPrefix, .iFromStrPrefix, .uFromStr, .iFromStr]) :
+    documented W op [.str s] = none := no_panic_parse W s op hop
+
+theorem unary_int_never_panics (W : Nat) (x : Int) (op : Op)
+    (hop : op ∈ [Op.uFmt, .iFmt, .uSqrt, .uCbrt, .iCbrt, .uBitInfo, .iBitInfo, .uToPrims, .iToPrims, .uBytes,
+                 .iBytes, .uTryFromI]) :
+    documented W op [.int x] = none := no_panic_unary_int W x op hop
+
+theorem int_index_never_panics (W : Nat) (x n : Int) (op : Op)
+    (hop : op ∈ [Op.uShr, .iShr, .uClearBit, .uBit, .iBit, .uSplitBits, .uClearHighBits]) :
+    documented W op [.int x, .dec n] = none := no_panic_int_index W x n op hop
+
+theorem remove_never_panics (W : Nat) (x f : Int) : documented W .uRemove [.int x, .int f] = none :=
+  no_panic_remove W x f
+
+theorem from_ieee_never_panics (W : Nat) (b : Int) (op : Op)
+    (hop : op ∈ [Op.uTryFromF64, .iTryFromF64, .uTryFromF32, .iTryFromF32, .qFromF64]) :
+    documented W op [.dec b] = none := no_panic_from_ieee W b op hop
+
+theorem float_cmp_never_panics (W : Nat) (a b : FArg) : documented W .fCmp [.flt a, .flt b] = none :=
+  no_panic_float_cmp W a b
+
+theorem float_conv_never_panics (W : Nat) (a : FArg) (op : Op)
+    (hop : op ∈ [Op.fToF32, .fToF64, .fNegAbs, .fToIntTry, .fToRatio, .fFmt]) :
+    documented W op [.flt a] = none := no_panic_float_conv W a op hop
+
+theorem with_precision_never_panics (W : Nat) (a : FArg) (p : Int) :
+    documented W .fWithPrecision [.flt a, .dec p] = none := no_panic_with_precision W a p
+
+theorem float_ctor_never_panics (W : Nat) (s : List UInt8) (i p b : Int) (z : FArg) :
+    documented W .fParse [.str s, .flt z] = none ∧
+    documented W .fFromInt [.int i, .dec p, .flt z] = none ∧
+    documented W .fFromF64 [.dec b, .flt z] = none := no_panic_float_ctor W s i p b z
+
+theorem ratio_parse_never_panics (W : Nat) (s : List UInt8) (r : Int) (c : Char) :
+    documented W .qParse [.str s, .kind c] = none ∧
+    documented W .qFromStrPrefix [.str s, .kind c] = none ∧
+    documented W .qFromStrRadix [.str s, .dec r, .kind c] = none := no_panic_ratio_parse W s r c
+
+theorem ratio_unary_never_panics (W : Nat) (n d : Int) (c : Char) (op : Op)
+    (hop : op ∈ [Op.qSqrCubic, .qRounding, .qToFloats, .qSign, .qFmt, .qToIntTry]) :
+    documented W op [.int n, .int d, .kind c] = none := no_panic_ratio_unary W n d c op hop
+
+theorem ratio_binary_never_panics (W : Nat) (n d n2 d2 : Int) (c : Char) (op : Op)
+    (hop : op ∈ [Op.qAdd, .qSub, .qMul, .qCmp, .qSimplestIn]) :
+    documented W op [.int n, .int d, .kind c, .int n2, .int d2] = none := no_panic_ratio_binary W n d n2 d2 c op hop
+
+theorem fbig_info_guard (W : Nat) (a : FArg) (k : Kind) (hc : a.canonical) (hm : a.moderate) :
+    guardFInfo a = .error k ↔ documented W .fInfo [.flt a] = some k := guardFInfo_iff W a k hc hm
+
+/-- `Reduced` operators in one ring (modulus ≠ 1; `inv()` at its specification: `Some` iff coprime) -/
+theorem reduced_same_ring_guard (W : Nat) (f : String) (m : Nat) (x b : Int) (k : Kind)
+    (hf : f ∈ ["add", "sub", "mul", "div", "eq"]) (hm : m ≠ 1) :
+    guardMSame W f m b = .error k ↔ documented W .mSame [.fn f, .int m, .int x, .int b] = some k :=
+  guardMSame_iff W f m x b k hf hm
+
+theorem from_chunks_zero_guard (W : Nat) (cs : List Arg) (l : List Int) (hl : allInts cs = some l)
+    (hpos : ¬ l.any (· < 0)) (k : Kind) :
+    guardFromChunks 0 = .error k ↔ documented W .uFromChunks (.dec 0 :: cs) = some k :=
+  guardFromChunks_zero W cs l hl hpos k
+
+theorem ishl_alloc_guard_partial (x : Int) (n : Nat) (hx0 : x ≠ 0)
+    (hband : (bitLen x.natAbs + n + 63) / 64 + 2 ≤ maxCapacity 64 ∨ (bitLen x.natAbs + n + 63) / 64 > maxCapacity 64) :
+    guardRequest 64 (shlRequest 64 x.natAbs n) = .error .allocTooMuch ↔
+      documented 64 .iShl [.int x, .dec n] = some .allocTooMuch := ishl_alloc_guard x n hx0 hband
+
+/- FULL (false, `fbig_from_parts_guard_counterexample`): `Repr::new` adds the trailing-zero count to the exponent unchecked. -/
+theorem fbig_from_parts_guard_partial (W : Nat) (s e : Int) (z : FArg) (k : Kind) (hz : z.canonical)
+    (he : isizeMin ≤ e ∧ e ≤ isizeMax)
+    (hexp : s ≠ 0 → expExact (e + (FArg.trailingZeros z.base s.natAbs : Int)) = .returns) :
+    guardFFromParts = .error k ↔ documented W .fFromParts [.int s, .dec e, .flt z] = some k :=
+  guardFFromParts_iff_partial W s e z k hz he hexp
+
+theorem fbig_from_parts_guard_counterexample :
+    guardFFromParts = .ok () ∧
+    documented 64 .fFromParts [.int 2, .dec (2 ^ 63 - 1), .flt ⟨2, 0, 0, 1, 'Z'⟩] = some .exponentOverflow :=
+  guardFFromParts_counterexample
+
+-- non-vacuity (task C): every hypothesis of the guard theorems instantiated on a concrete non-trivial value
+example : guardMSame 64 "div" 12 3 = .error .nonInvertible ∧ (12 : Nat) ≠ 1 := by decide
+example : guardMSame 64 "div" ((2 ^ 64 + 13 : Nat)) 6 = .ok () := by decide
+example : allInts [.int 1, .int 0, .int 255] = some [1, 0, 255] ∧ ¬ ([1, 0, 255] : List Int).any (· < 0) := by decide
+example : guardFInfo ⟨10, 0, -1, 5, 'H'⟩ = .error .infinite ∧ (⟨10, 0, -1, 5, 'H'⟩ : FArg).canonical = true := by decide
+example : expExact ((5 : Int) + (FArg.trailingZeros 10 3000 : Int)) = .returns := by decide
+example : (bitLen (3 : Int).natAbs + 1000 + 63) / 64 + 2 ≤ maxCapacity 64 := by decide
+example : expApprox (2 * (30 : Int)) = .returns ∧ expApprox (3 * (-400 : Int)) = .returns := by decide
+example : (⟨2, 1, 40, 10, 'Z'⟩ : FArg).magAtLeastPow2 66 = false ∧ (⟨2, 1, 40, 10, 'Z'⟩ : FArg).magAtMostPow2 61 = true := by
+  decide
+example : (⟨2, 12345, -2, 14, 'Z'⟩ : FArg).signif.natAbs = 1 → expApprox ((-2 : Int) * 100) = .returns := by decide
+example : isizeMin ≤ (1000 : Int) ∧ (1000 : Int) ≤ isizeMax ∧ expExact ((30 : Int) + 1000) = .returns := by decide
+example : (⟨2, 1, 0, 4, 'Z'⟩ : FArg).base = 2 → ((⟨2, 1, 0, 4, 'Z'⟩ : FArg).prec = 0 ∨ 4 ≤ (⟨2, 1, 0, 4, 'Z'⟩ : FArg).prec) := by
+  decide
+example : (5 : Nat) < 2 ^ (2 * 64) ∧ (0 : Nat) < 2 ^ 64 := by decide
+example : ¬ ((1000 : Nat) % 64 = 0 ∧ 1000 / 64 = maxCapacity 64) := by decide
+example : (bitLen (2 ^ 200) + 63) / 64 ≤ maxCapacity 64 := by decide
+
 -- non-vacuity of the float hypotheses: −∞ / 12345·2^-2 at precision 0 is a canonical, moderate pair and the
 -- guard fails with Infinite; 3/0 at precision 5 fails with DivideByZero
 example : guardFDiv 64 ⟨2, 0, -1, 0, 'Z'⟩ ⟨2, 12345, -2, 0, 'Z'⟩ = .error .infinite := by decide
@@ -323,6 +430,36 @@ theorem ln_positive_terminates (x eps : Rat) (h1 : 1 ≤ x) (h2 : x ≤ 2) (he :
     is only entered under the hypothesis of `ln_positive_terminates`. -/
 theorem ln_negative_never_terminates (x eps : Rat) (h1 : -2 ≤ x) (h2 : x < -1) (he : eps < 1) :
     ∀ fuel, lnSeries x eps fuel = none := lnSeries_diverges x eps h1 h2 he
+
+-- ---- round 3: further loops (Dashu.Model.Panic.Loops2), each under the condition the code establishes
+
+/-- `exp_internal`: the argument is reduced to `|r| ≤ 1/2` before the Maclaurin loop, which then stops after
+    logarithmically many iterations in `1/eps` -/
+theorem exp_series_terminates (r eps : Rat) (hr : |r| ≤ 1 / 2) (he : 0 < eps) (N : Nat)
+    (hN : |r| ≤ 2 ^ (N + 1) * eps) : expSeries r eps (N + 1) ≠ none := expSeries_terminates r eps hr he N hN
+
+/-- `iacoth(n)`, `n ≥ 2` (called with 6, 99, 26, 4801, 8749 for ln 2 and ln 10) -/
+theorem iacoth_series_terminates (n : Nat) (hn : 2 ≤ n) (eps : Rat) (he : 0 < eps) (N : Nat)
+    (hN : 1 / (n : Rat) < 4 ^ (N + 1) * eps) : iacothSeries n eps (N + 1) ≠ none :=
+  iacothSeries_terminates n hn eps he N hN
+
+/-- the estimate-fixing loops of integer `log` return from every positive estimate (base ≥ 2) -/
+theorem ilog_fix_returns (target base : Nat) (ovf : Option Nat) (hb : 2 ≤ base) (est estPow : Nat) (hp : 0 < estPow) :
+    ∃ fuel, logFixLoop target base ovf fuel est estPow ≠ none := logFix_returns target base ovf hb est estPow hp
+
+/-- `UBig::remove`, first stage: at most `bit_len(self)` divisions -/
+theorem remove_returns (q factor : Nat) (hq : 0 < q) (hf : 2 ≤ factor) :
+    ∃ fuel, fuel ≤ Nat.log2 q + 1 ∧ removeUpLoop fuel q 1 [factor * factor] ≠ none := removeUp_returns q factor hq hf
+
+/-- the bit loop of integer `pow` and float `powi`: exactly `bit_len(exp) - 1` rounds -/
+theorem pow_bit_loop_terminates (exp p : Nat) (acc : Nat × Nat) : powBitLoop exp (p + 1) p acc ≠ none :=
+  powBitLoop_terminates exp p acc
+
+example : expSeries (1 / 3) (1 / 1000) 9 ≠ none := exp_series_terminates (1 / 3) (1 / 1000) (by norm_num [abs_of_pos]) (by norm_num) 8 (by norm_num [abs_of_pos])
+example : iacothSeries 6 (1 / 1000) 4 ≠ none := iacoth_series_terminates 6 (by decide) (1 / 1000) (by norm_num) 3 (by norm_num)
+example : logFixLoop 1000 3 none 8 2 9 = some (6, 729) := by decide
+example : removeUpLoop 5 (3 ^ 7 * 5) 1 [9] = some (15, 7, [6561, 81, 9]) := by decide
+example : powBitLoop 13 3 2 (0, 0) = some (2, 2) := by decide
 
 -- ------------------------------------------------------------------ (4) the float parser's slicing
 
